@@ -55,7 +55,8 @@ def strategy(draw, tier="quick"):
         hay = []
     case = {"nf": nf, "cells": cells, "coords": cp, "cut_frac": draw(st.sampled_from([0.02, 0.1, 0.25, 0.5, 0.75, 0.8, 0.97, 1.0])),
             "query": q, "haystack": hay, "periodic": draw(st.sampled_from([True, True, True, False])),
-            "voxel_snap": draw(st.booleans()), "nl_frame": draw(st.integers(0, nf - 1))}
+            "voxel_snap": draw(st.booleans()), "nl_frame": draw(st.integers(0, nf - 1)),
+            "idxv": draw(st.sampled_from([0, 0, 0, 1, 2, 5, 6, 12, 30]))}     # containers of haystack (idxv % 6) and query (idxv // 6)
     case["coords"]["pair_scale"] = case["cut_frac"]
     if "C10-nlist-skewed-large-cutoff" in _open_keys() and WHERE["C10-nlist-skewed-large-cutoff"](case, None):
         # excluded by construction: the neighbour-list part of this case runs with the cutoff capped at 0.75 of the
@@ -96,10 +97,10 @@ def run_case(case):
     across = only_image = only_image_rect = False
     with warnings.catch_warnings():
         warnings.simplefilter("ignore")
-        kw = {} if hay is None else {"haystack_indices": np.array(hay, dtype=int)}
+        kw = {} if hay is None else {"haystack_indices": gen.index_variant(np.array(hay, dtype=int), case.get("idxv", 0))}
         got_nb = None
         if not (hay is not None and len(hay) == 0):
-            got_nb = md.compute_neighbors(traj, cutoff, np.array(query), periodic=periodic, **kw)
+            got_nb = md.compute_neighbors(traj, cutoff, gen.index_variant(np.array(query), case.get("idxv", 0) // 6), periodic=periodic, **kw)
             if len(got_nb) != nf:
                 viol.append(("neighbors/n_frames", "%d results for %d frames" % (len(got_nb), nf)))
                 got_nb = None
